@@ -705,13 +705,14 @@ def _svc(seed, pre):
     return rss
 
 
-def _run_trials(c, seed, pre, n, ncpu, nsig, mini):
+def _run_trials(c, seed, pre, n, ncpu, nsig, mini, kwargs=None):
+    """mini: None | {'seed', 'pre'} (a separate minimiser service) | 'same' (the data service itself is passed)"""
     ana = _mk_ana(c)
     rss = _svc(seed, pre)
-    mrss = _svc(mini['seed'], mini['pre']) if mini else None
+    mrss = rss if mini == 'same' else _svc(mini['seed'], mini['pre']) if mini else None
     with _Watchdog(120):
-        rec = ana.do_trials(rss, n, ncpu=ncpu, mean_n_sig=nsig, minimizer_rss=mrss)
-    return rec, rss, mrss
+        rec = ana.do_trials(rss, n, ncpu=ncpu, mean_n_sig=nsig, minimizer_rss=mrss, **(kwargs or {}))
+    return rec, rss, (None if mini == 'same' else mrss)
 
 
 def _rows(rec):
@@ -735,25 +736,31 @@ def _state_at(seed, pos):
 
 
 def _same_state(a, b):
-    return a[0] == b[0] and np.array_equal(a[1], b[1]) and a[2] == b[2]
+    """full legacy RandomState state: algorithm, key, position, has_gauss, cached_gaussian"""
+    return (a[0] == b[0] and np.array_equal(a[1], b[1]) and a[2] == b[2] and a[3] == b[3]
+            and (a[3] == 0 or a[4] == b[4]))
 
 
 def _trials_req(case):
     c = case['cfg']
     seed, pre, n, ncpu, nsig, mini = case['seed'], case['pre'], case['n'], case['ncpu'], case['nsig'], case.get('mini')
+    if mini is None and not _gen()['minimizerRssForwarded']:
+        mini = 'same'      # the source forwards the data service to the minimiser: modelled as the aliased call
     B = 2 * pre + ncpu + 2 * n * (1 + c['maxev'] + nsig) + 8
-    if mini:
+    if mini == 'same':
+        B += 2 * n * c['npar'] * c['maxrep']
+    elif mini:
         B = max(B, 2 * mini['pre'] + 2 * n * c['npar'] * c['maxrep'] + 8)
     B = max(B, 2 * c['npar'] * c['maxrep'] + 8)
     seeds = [seed]
     if ncpu > 1:
         w = _words(seed, 2 * pre + ncpu)
         seeds += [int(x) for x in w[2 * pre: 2 * pre + ncpu - 1]]
-    if mini:
+    if mini and mini != 'same':
         seeds.append(mini['seed'])
     tabs = ';'.join('%d=%s' % (s, ','.join(str(int(x)) for x in _words(s, B))) for s in dict.fromkeys(seeds))
     return 'trials %d %d %d %d %s %d %d %s %d %d %s %s %s' % (
-        n, ncpu, seed, 2 * pre, ('%d:%d' % (mini['seed'], 2 * mini['pre'])) if mini else '-',
+        n, ncpu, seed, 2 * pre, 'same' if mini == 'same' else ('%d:%d' % (mini['seed'], 2 * mini['pre'])) if mini else '-',
         c['maxev'], nsig, f2b(c['thr']), c['maxrep'], c['npar'], f2b(c['lo']), f2b(c['hi']), tabs)
 
 
@@ -768,6 +775,9 @@ def _trials_impl(case):
 
 
 def _trials_compare(case, impl, rss, mrss, model):
+    if model.startswith('ERR:'):
+        # do_trials raises (ncpu < 1, n = 0): only *that* it raises is compared, not the exception class
+        return None if impl.startswith('EXC:') else 'model: do_trials raises (%s), the implementation returned %s' % (model, impl[:200])
     if impl.startswith('EXC:'):
         return 'implementation raised %s' % impl[4:]
     parts = dict(x.split(':', 1) for x in model.split(' '))
